@@ -446,7 +446,8 @@ def _run(ctx):
              ("MCI_cap", {"NL": 2, "NS": 2, "NG": 3, "Cap": 2, "RCap": 2, "MaxIdx": 3 if quick else 4})]
     if not quick:
         impls.append(("MCI_free3", {"NL": 3, "NS": 2, "NG": 3, "Cap": 9, "RCap": 9, "MaxIdx": 3}))
-        impls.append(("MCI_cap3", {"NL": 3, "NS": 1, "NG": 3, "Cap": 3, "RCap": 2, "MaxIdx": 3}))
+        # three listeners, room for two: a never-attached listener can meet a full reactor (RCap = Cap, as in selfd)
+        impls.append(("MCI_cap3", {"NL": 3, "NS": 1, "NG": 3, "Cap": 2, "RCap": 2, "MaxIdx": 3}))
     for name, consts in impls:
         invs = list(INVS)
         while True:
